@@ -20,6 +20,7 @@ CONSTANTS
  BatchAtEnd <- MC_BatchAtEnd
  EMIT <- MC_EMIT
  ListOrders <- MC_ListOrders
+ CoordPkps <- MC_CoordPkps
 INIT Init
 NEXT Next
 CHECK_DEADLOCK FALSE
